@@ -14,6 +14,7 @@ import ast
 import copy
 
 from pyvc.flow import dotted
+from contracts.c14_inline import line_of as LN
 
 
 def pos(n):
@@ -127,6 +128,35 @@ def local_names(fn):
     return names
 
 
+def table_read(value):
+    """`T[k]`, `T.get(k[, d])`, and either of them as the non-None arm of `x if c else None`: -> (table Name node, key) or None."""
+    if isinstance(value, ast.IfExp):
+        if isinstance(value.orelse, ast.Constant) and value.orelse.value is None:
+            value = value.body
+        elif isinstance(value.body, ast.Constant) and value.body.value is None:
+            value = value.orelse
+    if isinstance(value, ast.Subscript) and isinstance(value.value, ast.Name) and not isinstance(value.slice, ast.Slice):
+        return value.value, value.slice
+    if isinstance(value, ast.Call) and isinstance(value.func, ast.Attribute) and value.func.attr == "get" and isinstance(value.func.value, ast.Name) and value.args:
+        return value.func.value, value.args[0]
+    return None
+
+
+def resolve_alias(fn, pm, name, at, depth=0):
+    """Follow `name = other` chains: when every binding of `name` before `at` assigns the same local name, that name."""
+    if depth > 6:
+        return name
+    bs = [b for b in bindings_of(fn, name) if b.kind != "param" and pos(b.node) < pos(at)]
+    if not bs or any(b.kind not in ("assign",) for b in bs):
+        return name
+    targets = {b.value.id for b in bs if isinstance(b.value, ast.Name)}
+    if len(targets) == 1 and all(isinstance(b.value, ast.Name) for b in bs):
+        t = next(iter(targets))
+        if t != name:
+            return resolve_alias(fn, pm, t, bs[0].node, depth + 1)
+    return name
+
+
 def map_stores(fn, mname):
     out = []
     for n in ast.walk(fn):
@@ -218,21 +248,28 @@ class Slicer:
             self.emit(b.node, ast.Assign(targets=[ast.Name(id=name, ctx=ast.Store())], value=ast.Name(id="__target", ctx=ast.Load())))
             self.sl.sources["__target"] = "target"
             return
+        tr = table_read(value)
+        if tr is not None and not isinstance(value, ast.Subscript) and tr[0].id in self.locals \
+                and map_stores(self.fn, resolve_alias(self.fn, self.pm, tr[0].id, b.node)):
+            # `table.get(key[, default])` / `table[key] if c else None` on a local lookup table: like `table[key]` (the other arm is
+            # the absent case, which never reaches a read of the container)
+            value = ast.copy_location(ast.Subscript(value=tr[0], slice=tr[1], ctx=ast.Load()), value)
         if isinstance(value, ast.Subscript) and isinstance(value.value, ast.Name) and value.value.id in self.locals \
                 and not isinstance(value.slice, ast.Slice):
-            stores = map_stores(self.fn, value.value.id)
+            mname = resolve_alias(self.fn, self.pm, value.value.id, b.node)
+            stores = map_stores(self.fn, mname)
             if len(stores) == 1:
                 # value read back from a local map with a single store site: it is the stored expression
                 st = stores[0]
                 v2 = self.need_expr(st.value, st)
                 self.emit(b.node, ast.Assign(targets=[ast.Name(id=name, ctx=ast.Store())], value=v2))
-                self.sl.notes.append(f"{name} flows through map {value.value.id}")
-                self.sl.map_flows.append((value.value.id, b.node, st))
+                self.sl.notes.append(f"{name} flows through map {mname}")
+                self.sl.map_flows.append((mname, b.node, st))
                 return
             if not stores:
                 self.sl.sources[name] = "source"
                 return
-            return self.fail(f"map {value.value.id} has {len(stores)} store sites")
+            return self.fail(f"map {mname} has {len(stores)} store sites")
         if isinstance(value, (ast.Call, ast.Attribute, ast.Subscript)) and self.opaque_source(value):
             self.sl.sources[name] = "source"
             return
@@ -290,7 +327,7 @@ class Slicer:
                     self.need_name(x.id, S)
             ast.fix_missing_locations(S2)
             self.sl.stmts.append((pos(S), len(self.sl.stmts), S2))
-            self.sl.notes.append(f"{name} is defined by the conditional at line {S.lineno}")
+            self.sl.notes.append(f"{name} is defined by the conditional at line {LN(S)}")
             return self.sl.ok
         return False
 
@@ -360,7 +397,10 @@ def table_scope(fn, pm, mname, read_node, store_stmt):
     part* only if the table is re-initialised inside every loop that encloses both the store and the read: otherwise entries
     written in earlier iterations of that loop (for other source parts) are still visible to the read.
     -> (ok, detail) ; ok None: shape not recognised."""
+    inits = [x for x in bindings_of(fn, mname) if x.kind == "assign" and pos(x.node) < pos(read_node)]
     b = reaching(fn, pm, mname, read_node)
+    if (b is None or b.kind != "assign") and len(inits) == 1:
+        b = inits[0]
     if b is None or b.kind != "assign":
         return None, f"no unique initialisation of {mname} reaches its use"
     v = b.value
@@ -371,6 +411,26 @@ def table_scope(fn, pm, mname, read_node, store_stmt):
     common = [a for a in ancestors(pm, read_node) if isinstance(a, (ast.For, ast.While)) and id(a) in set(id(x) for x in ancestors(pm, store_stmt))]
     outside = [l for l in common if id(l) not in init_anc]
     if outside:
-        return False, (f"{mname} is created at line {b.node.lineno}, outside the loop at line {outside[-1].lineno} that both fills and reads it: entries of earlier "
+        return False, (f"{mname} is created at line {LN(b.node)}, outside the loop at line {LN(outside[-1])} that both fills and reads it: entries of earlier "
                        f"iterations (other source parts) stay visible, so a key that the current part does not define resolves to another part's value")
     return True, ""
+
+
+def relationships_read_feeding(fn, pm, store_stmt):
+    """The relationship part that feeds a table: `store_stmt` sits in `for rel in parse_relationships(X)`; X is (a name bound to)
+    `<ctx>.read_xml_root(P)`.  -> (P expression, node at which it is evaluated) or None."""
+    for a in ancestors(pm, store_stmt):
+        if isinstance(a, ast.For) and isinstance(a.iter, ast.Call) and dotted(a.iter.func).split(".")[-1] == "parse_relationships" and a.iter.args:
+            x = a.iter.args[0]
+            at = a
+            for _ in range(4):
+                if isinstance(x, ast.Call) and isinstance(x.func, ast.Attribute) and x.func.attr == "read_xml_root" and x.args:
+                    return x.args[0], at
+                if isinstance(x, ast.Name):
+                    b = reaching(fn, pm, x.id, at)
+                    if b is None or b.kind != "assign":
+                        return None
+                    x, at = b.value, b.node
+                    continue
+                return None
+    return None
